@@ -1,10 +1,10 @@
-(* C03 driver: one case per line.
-   int <sbits> <ssigned> <cbits> <p> <op> <args...>   integral Modular<S,C>
-   same op names as harness/c03_modular.C; in-place call forms are the same model bodies with the
-   destination in the operand position the C++ code reads it from. *)
+(* C03 driver: one case per line.  Same op names as harness/c03_modular.C.  EVERY call form has its own model function, written after
+   its own C++ body (ModelIn.v for the in-place forms that used to be mapped onto the three-address model); the destination of an
+   in-place form is the model function's first operand.  ModularBalanced::neg is the body of /repo now (repaired, edb1d16). *)
 let zs = z_of_string
 let fuel = nat_of_int 400
 let so f = function Some x -> f x | None -> "FUEL"
+let consts5 s p ((((z, o), m), lo), hi) = String.concat " " [s z; s o; s m; s lo; s hi; s p]
 let () = run_lines (fun toks ->
   match toks with
   | "int" :: sb :: sg :: cb :: p :: op :: args ->
@@ -14,14 +14,20 @@ let () = run_lines (fun toks ->
     (match op with
      | "add" -> s (Model.addZ sb sg cb p a.(0) a.(1))
      | "addin" -> s (Model.addinZ sb sg cb p a.(0) a.(1))
-     | "sub" | "subin" -> s (Model.subZ sb sg cb p a.(0) a.(1))
-     | "mul" | "mulin" -> s (Model.mulZ sb sg cb p a.(0) a.(1))
-     | "neg" | "negin" -> s (Model.negZ sb sg cb p a.(0))
-     | "inv" | "invin" -> so s (Model.invZ sb sg cb p fuel a.(0))
+     | "sub" -> s (Model.subZ sb sg cb p a.(0) a.(1))
+     | "subin" -> s (Model.subinZ sb sg cb p a.(0) a.(1))
+     | "mul" -> s (Model.mulZ sb sg cb p a.(0) a.(1))
+     | "mulin" -> s (Model.mulinZ sb sg cb p a.(0) a.(1))
+     | "neg" -> s (Model.negZ sb sg cb p a.(0))
+     | "negin" -> s (Model.neginZ sb sg cb p a.(0))
+     | "inv" -> so s (Model.invZ sb sg cb p fuel a.(0))
+     | "invin" -> so s (Model.invinZ sb sg cb p fuel a.(0))
      | "div" -> so s (Model.divZ sb sg cb p fuel a.(0) a.(1))
      | "divin" -> so s (Model.divinZ sb sg cb p fuel a.(0) a.(1))
-     | "axpy" | "axpyin" -> s (Model.axpyZ sb sg cb p a.(0) a.(1) a.(2))
-     | "axmy" | "axmyin" -> s (Model.axmyZ sb sg cb p a.(0) a.(1) a.(2))
+     | "axpy" -> s (Model.axpyZ sb sg cb p a.(0) a.(1) a.(2))
+     | "axpyin" -> s (Model.axpyinZ sb sg cb p a.(2) a.(0) a.(1))
+     | "axmy" -> s (Model.axmyZ sb sg cb p a.(0) a.(1) a.(2))
+     | "axmyin" -> s (Model.axmyinZ sb sg cb p a.(2) a.(0) a.(1))
      | "maxpy" -> s (Model.maxpyZ sb sg cb p a.(0) a.(1) a.(2))
      | "maxpyin" -> s (Model.maxpyinZ sb sg cb p a.(2) a.(0) a.(1))
      | "reduce1" | "reduce2" -> s (Model.reduceZ sb sg cb p a.(0))
@@ -29,66 +35,88 @@ let () = run_lines (fun toks ->
      | "gcdext" -> so (fun ((d, u), v) -> s d ^ " " ^ s u ^ " " ^ s v) (Model.gcdextZ sb sg fuel a.(0) a.(1))
      | "mulpp" -> s (Model.mul_precomp_pZ sb sg cb p a.(0) a.(1))
      | "mulpb" -> s (Model.mul_precomp_bZ sb sg cb p a.(0) a.(1))
-     | "consts" -> s (Model.mOneZ sb sg cb p)
+     | "consts" -> consts5 s p (Model.constsZ sb sg cb p)
      | _ -> "UNKNOWN-OP")
   | "fm" :: pe :: pc :: p :: op :: args ->
     let pe = zs pe and pc = zs pc and p = zs p in
     let a = Array.of_list (List.map zs args) in
     let s = string_of_z in
     (match op with
-     | "add" | "addin" -> s (Model.fm_add pe pc p a.(0) a.(1))
+     | "add" -> s (Model.fm_add pe pc p a.(0) a.(1))
+     | "addin" -> s (Model.fm_addin pe pc p a.(0) a.(1))
      | "sub" -> s (Model.fm_sub pe pc p a.(0) a.(1))
      | "subin" -> s (Model.fm_subin pe pc p a.(0) a.(1))
-     | "mul" | "mulin" -> s (Model.fm_mul pe pc p a.(0) a.(1))
-     | "neg" | "negin" -> s (Model.fm_neg pe pc p a.(0))
-     | "inv" | "invin" -> so s (Model.fm_inv pe pc p fuel a.(0))
+     | "mul" -> s (Model.fm_mul pe pc p a.(0) a.(1))
+     | "mulin" -> s (Model.fm_mulin pe pc p a.(0) a.(1))
+     | "neg" -> s (Model.fm_neg pe pc p a.(0))
+     | "negin" -> s (Model.fm_negin pe pc p a.(0))
+     | "inv" -> so s (Model.fm_inv pe pc p fuel a.(0))
+     | "invin" -> so s (Model.fm_invin pe pc p fuel a.(0))
      | "div" -> so s (Model.fm_div pe pc p fuel a.(0) a.(1))
      | "divin" -> so s (Model.fm_divin pe pc p fuel a.(0) a.(1))
-     | "axpy" | "axpyin" -> s (Model.fm_axpy pe pc p a.(0) a.(1) a.(2))
+     | "axpy" -> s (Model.fm_axpy pe pc p a.(0) a.(1) a.(2))
+     | "axpyin" -> s (Model.fm_axpyin pe pc p a.(2) a.(0) a.(1))
      | "axmy" -> s (Model.fm_axmy pe pc p a.(0) a.(1) a.(2))
      | "axmyin" -> s (Model.fm_axmyin pe pc p a.(2) a.(0) a.(1))
      | "maxpy" -> s (Model.fm_maxpy pe pc p a.(0) a.(1) a.(2))
      | "maxpyin" -> s (Model.fm_maxpyin pe pc p a.(2) a.(0) a.(1))
      | "reduce1" | "reduce2" -> s (Model.fm_reduce pe pc p a.(0))
      | "isUnit" -> so string_of_bool (Model.fm_isUnit pe p fuel a.(0))
+     | "consts" -> consts5 s p (Model.fm_consts pe p)
      | _ -> "UNKNOWN-OP")
   | "bf" :: pe :: p :: op :: args ->
     let pe = zs pe and p = zs p in
     let a = Array.of_list (List.map zs args) in
     let s = string_of_z in
     (match op with
-     | "add" | "addin" -> s (Model.bf_add pe p a.(0) a.(1))
-     | "sub" | "subin" -> s (Model.bf_sub pe p a.(0) a.(1))
-     | "mul" | "mulin" -> s (Model.bf_mul pe p a.(0) a.(1))
-     | "neg" | "negin" -> s (Model.bf_neg a.(0))
-     | "negn" -> s (Model.bf_negn pe p a.(0))            (* neg as repaired by frag/C03.fix-1 *)
-     | "inv" | "invin" -> so s (Model.bf_inv pe p fuel a.(0))
-     | "div" | "divin" -> so s (Model.bf_div pe p fuel a.(0) a.(1))
+     | "add" -> s (Model.bf_add pe p a.(0) a.(1))
+     | "addin" -> s (Model.bf_addin pe p a.(0) a.(1))
+     | "sub" -> s (Model.bf_sub pe p a.(0) a.(1))
+     | "subin" -> s (Model.bf_subin pe p a.(0) a.(1))
+     | "mul" -> s (Model.bf_mul pe p a.(0) a.(1))
+     | "mulin" -> s (Model.bf_mulin pe p a.(0) a.(1))
+     | "neg" -> s (Model.bf_negn pe p a.(0))
+     | "negin" -> s (Model.bf_negin pe p a.(0))
+     | "inv" -> so s (Model.bf_inv pe p fuel a.(0))
+     | "invin" -> so s (Model.bf_invin pe p fuel a.(0))
+     | "div" -> so s (Model.bf_div pe p fuel a.(0) a.(1))
+     | "divin" -> so s (Model.bf_divin pe p fuel a.(0) a.(1))
      | "axpy" -> s (Model.bf_axpy pe p a.(0) a.(1) a.(2))
      | "axpyin" -> s (Model.bf_axpyin pe p a.(2) a.(0) a.(1))
-     | "axmy" | "axmyin" -> s (Model.bf_axmy pe p a.(0) a.(1) a.(2))
-     | "maxpy" | "maxpyin" -> s (Model.bf_maxpy pe p a.(0) a.(1) a.(2))
+     | "axmy" -> s (Model.bf_axmy pe p a.(0) a.(1) a.(2))
+     | "axmyin" -> s (Model.bf_axmyin pe p a.(2) a.(0) a.(1))
+     | "maxpy" -> s (Model.bf_maxpy pe p a.(0) a.(1) a.(2))
+     | "maxpyin" -> s (Model.bf_maxpyin pe p a.(2) a.(0) a.(1))
      | "reduce1" | "reduce2" -> s (Model.bf_reduce pe p a.(0))
      | "isUnit" -> so string_of_bool (Model.bf_isUnit pe p fuel a.(0))
+     | "consts" -> consts5 s p (Model.bf_consts pe p)
      | _ -> "UNKNOWN-OP")
   | "bi" :: w :: p :: op :: args ->
     let w = zs w and p = zs p in
     let a = Array.of_list (List.map zs args) in
     let s = string_of_z in
     (match op with
-     | "add" | "addin" -> s (Model.bi_add w p a.(0) a.(1))
-     | "sub" | "subin" -> s (Model.bi_sub w p a.(0) a.(1))
-     | "mul" | "mulin" -> s (Model.bi_mul w p a.(0) a.(1))
-     | "neg" | "negin" -> s (Model.bi_neg w a.(0))
-     | "negn" -> s (Model.bi_negn w p a.(0))             (* neg / maxpy as repaired by frag/C03.fix-1 *)
-     | "maxpyn" -> s (Model.bi_maxpyn w p a.(0) a.(1) a.(2))
-     | "inv" | "invin" -> so s (Model.bi_inv w p fuel a.(0))
-     | "div" | "divin" -> so s (Model.bi_div w p fuel a.(0) a.(1))
-     | "axpy" | "axpyin" -> s (Model.bi_axpy w p a.(0) a.(1) a.(2))
-     | "axmy" | "axmyin" -> s (Model.bi_axmy w p a.(0) a.(1) a.(2))
-     | "maxpy" | "maxpyin" -> s (Model.bi_maxpy w p a.(0) a.(1) a.(2))
+     | "add" -> s (Model.bi_add w p a.(0) a.(1))
+     | "addin" -> s (Model.bi_addin w p a.(0) a.(1))
+     | "sub" -> s (Model.bi_sub w p a.(0) a.(1))
+     | "subin" -> s (Model.bi_subin w p a.(0) a.(1))
+     | "mul" -> s (Model.bi_mul w p a.(0) a.(1))
+     | "mulin" -> s (Model.bi_mulin w p a.(0) a.(1))
+     | "neg" -> s (Model.bi_negn w p a.(0))
+     | "negin" -> s (Model.bi_negin w p a.(0))
+     | "inv" -> so s (Model.bi_inv w p fuel a.(0))
+     | "invin" -> so s (Model.bi_invin w p fuel a.(0))
+     | "div" -> so s (Model.bi_div w p fuel a.(0) a.(1))
+     | "divin" -> so s (Model.bi_divin w p fuel a.(0) a.(1))
+     | "axpy" -> s (Model.bi_axpy w p a.(0) a.(1) a.(2))
+     | "axpyin" -> s (Model.bi_axpyin w p a.(2) a.(0) a.(1))
+     | "axmy" -> s (Model.bi_axmy w p a.(0) a.(1) a.(2))
+     | "axmyin" -> s (Model.bi_axmyin w p a.(2) a.(0) a.(1))
+     | "maxpy" -> s (Model.bi_maxpyn w p a.(0) a.(1) a.(2))
+     | "maxpyin" -> s (Model.bi_maxpyin w p a.(2) a.(0) a.(1))
      | "reduce1" | "reduce2" -> s (Model.bi_reduce w p a.(0))
      | "isUnit" -> so string_of_bool (Model.bi_isUnit w p fuel a.(0))
+     | "consts" -> consts5 s p (Model.bi_consts w p)
      | _ -> "UNKNOWN-OP")
   | "xb" :: mb :: rb :: pe :: p :: op :: args ->
     (* ModularExtended: mb / rb = the preprocessor branch of ::mul / ::reduce the configuration compiled (0 FMA, 1 Dekker, 2 fallback) *)
@@ -96,48 +124,71 @@ let () = run_lines (fun toks ->
     let a = Array.of_list (List.map zs args) in
     let s = string_of_z in
     (match op with
-     | "add" | "addin" -> s (Model.ex_add pe p a.(0) a.(1))
-     | "sub" | "subin" -> s (Model.ex_sub pe p a.(0) a.(1))
-     | "mul" | "mulin" -> s (Model.xb_mul mb pe p a.(0) a.(1))
-     | "neg" | "negin" -> s (Model.ex_neg pe p a.(0))
-     | "inv" | "invin" -> so s (Model.ex_inv pe p fuel a.(0))
-     | "div" | "divin" -> so s (Model.xb_div mb pe p fuel a.(0) a.(1))
-     | "axpy" | "axpyin" -> s (Model.xb_axpy mb pe p a.(0) a.(1) a.(2))
-     | "axmy" | "axmyin" -> s (Model.xb_axmy mb pe p a.(0) a.(1) a.(2))
-     | "maxpy" | "maxpyin" -> s (Model.xb_maxpy mb pe p a.(0) a.(1) a.(2))
+     | "add" -> s (Model.ex_add pe p a.(0) a.(1))
+     | "addin" -> s (Model.xb_addin pe p a.(0) a.(1))
+     | "sub" -> s (Model.ex_sub pe p a.(0) a.(1))
+     | "subin" -> s (Model.xb_subin pe p a.(0) a.(1))
+     | "mul" -> s (Model.xb_mul mb pe p a.(0) a.(1))
+     | "mulin" -> s (Model.xb_mulin mb pe p a.(0) a.(1))
+     | "neg" -> s (Model.ex_neg pe p a.(0))
+     | "negin" -> s (Model.xb_negin pe p a.(0))
+     | "inv" -> so s (Model.ex_inv pe p fuel a.(0))
+     | "invin" -> so s (Model.xb_invin pe p fuel a.(0))
+     | "div" -> so s (Model.xb_div mb pe p fuel a.(0) a.(1))
+     | "divin" -> so s (Model.xb_divin mb pe p fuel a.(0) a.(1))
+     | "axpy" -> s (Model.xb_axpy mb pe p a.(0) a.(1) a.(2))
+     | "axpyin" -> s (Model.xb_axpyin mb pe p a.(2) a.(0) a.(1))
+     | "axmy" -> s (Model.xb_axmy mb pe p a.(0) a.(1) a.(2))
+     | "axmyin" -> s (Model.xb_axmyin mb pe p a.(2) a.(0) a.(1))
+     | "maxpy" -> s (Model.xb_maxpy mb pe p a.(0) a.(1) a.(2))
+     | "maxpyin" -> s (Model.xb_maxpyin mb pe p a.(2) a.(0) a.(1))
      | "reduce1" | "reduce2" -> s (Model.xb_reduce rb pe p a.(0))
      | "isUnit" -> so string_of_bool (Model.ex_isUnit pe p fuel a.(0))
+     | "consts" -> consts5 s p (Model.xb_consts pe p)
      | _ -> "UNKNOWN-OP")
   | "ru" :: w :: dbl :: p :: op :: args ->
     let w = zs w and dbl = (dbl = "1") and p = zs p in
     let a = Array.of_list (List.map zs args) in
     let s = string_of_z in
     (match op with
-     | "add" | "addin" -> s (Model.ru_add w p a.(0) a.(1))
+     | "add" -> s (Model.ru_add w p a.(0) a.(1))
+     | "addin" -> s (Model.ru_addin w p a.(0) a.(1))
      | "sub" -> s (Model.ru_sub w p a.(0) a.(1))
      | "subin" -> s (Model.ru_subin w p a.(0) a.(1))
-     | "mul" | "mulin" -> s (Model.ru_mul w dbl p a.(0) a.(1))
-     | "neg" | "negin" -> s (Model.ru_neg w p a.(0))
-     | "axpy" | "axpyin" -> s (Model.ru_axpy w dbl p a.(0) a.(1) a.(2))
-     | "axmy" | "axmyin" -> s (Model.ru_axmy w dbl p a.(0) a.(1) a.(2))
+     | "mul" -> s (Model.ru_mul w dbl p a.(0) a.(1))
+     | "mulin" -> s (Model.ru_mulin w dbl p a.(0) a.(1))
+     | "neg" -> s (Model.ru_neg w p a.(0))
+     | "negin" -> s (Model.ru_negin w p a.(0))
+     | "axpy" -> s (Model.ru_axpy w dbl p a.(0) a.(1) a.(2))
+     | "axpyin" -> s (Model.ru_axpyin w dbl p a.(2) a.(0) a.(1))
+     | "axmy" -> s (Model.ru_axmy w dbl p a.(0) a.(1) a.(2))
+     | "axmyin" -> s (Model.ru_axmyin w dbl p a.(2) a.(0) a.(1))
      | "maxpy" -> s (Model.ru_maxpy w dbl p a.(0) a.(1) a.(2))
      | "maxpyin" -> s (Model.ru_maxpyin w dbl p a.(2) a.(0) a.(1))
      | "reduce1" | "reduce2" -> s (Model.ru_reduce p a.(0))
      | "isUnit" -> so string_of_bool (Model.ru_isUnit w p fuel a.(0))
+     | "consts" -> consts5 s p (Model.ru_consts w p)
      | _ -> "UNKNOWN-OP")
   | "zz" :: p :: op :: args ->
     let p = zs p in
     let a = Array.of_list (List.map zs args) in
     let s = string_of_z in
     (match op with
-     | "add" | "addin" -> s (Model.zz_add p a.(0) a.(1))
-     | "sub" | "subin" -> s (Model.zz_sub p a.(0) a.(1))
-     | "mul" | "mulin" -> s (Model.zz_mul p a.(0) a.(1))
-     | "neg" | "negin" -> s (Model.zz_neg p a.(0))
-     | "axpy" | "axpyin" -> s (Model.zz_axpy p a.(0) a.(1) a.(2))
+     | "add" -> s (Model.zz_add p a.(0) a.(1))
+     | "addin" -> s (Model.zz_addin p a.(0) a.(1))
+     | "sub" -> s (Model.zz_sub p a.(0) a.(1))
+     | "subin" -> s (Model.zz_subin p a.(0) a.(1))
+     | "mul" -> s (Model.zz_mul p a.(0) a.(1))
+     | "mulin" -> s (Model.zz_mulin p a.(0) a.(1))
+     | "neg" -> s (Model.zz_neg p a.(0))
+     | "negin" -> s (Model.zz_negin p a.(0))
+     | "axpy" -> s (Model.zz_axpy p a.(0) a.(1) a.(2))
+     | "axpyin" -> s (Model.zz_axpyin p a.(2) a.(0) a.(1))
      | "axmy" -> s (Model.zz_axmy p a.(0) a.(1) a.(2))
      | "axmyin" -> s (Model.zz_axmyin p a.(2) a.(0) a.(1))
-     | "maxpy" | "maxpyin" -> s (Model.zz_maxpy p a.(0) a.(1) a.(2))
+     | "maxpy" -> s (Model.zz_maxpy p a.(0) a.(1) a.(2))
+     | "maxpyin" -> s (Model.zz_maxpyin p a.(2) a.(0) a.(1))
      | "reduce1" | "reduce2" -> s (Model.zz_reduce p a.(0))
+     | "consts" -> consts5 s p (Model.zz_consts p)
      | _ -> "UNKNOWN-OP")
   | _ -> "BAD-LINE")
